@@ -1127,4 +1127,97 @@ example :
     (run defaultObjs i (h.map HOp.op)).2.1.flag = false ∧ (run defaultObjs i (h.map HOp.op)).2.1.recvThr = .alive ∧
     (run defaultObjs i (h.map HOp.op)).2.1.qwrite = [] := by decide +kernel
 
+/-! ## Round 7 — truncated requests, over-long declared lengths, a second request in the same write
+
+  Section 5 left "damage in the length bytes and truncated requests" to `ignores_junk`'s hypothesis and K / O.  With
+  `C02.truncated_rejected` / `C02.overlong_rejected` / `C02.dispatch_first_frame_only` (round 7) they become theorems
+  about the device.  Stated for the bytes AS QUEUED (like `ignores_corrupted`) and, through the interface, for write
+  padding 0: zero padding behind a truncated request can complete it (if the cut-off tail was zeros the padded write IS
+  the request again), so "for every write padding" is false for this class and is not claimed. -/
+
+/-- every proper prefix of a valid request (every request, every cut point, the empty write included) is ignored by the
+    dispatcher -/
+theorem truncated_ignored (w : Bytes) (fid : Nat) (pl : Bytes) (n : Nat)
+    (hw : Serial.frameDecode w = .ok ⟨fid, pl⟩) (hexact : w.length = flen w) (hn : n < w.length) :
+    Dispatch.recvHandle (w.take n) = .ignored := by
+  obtain ⟨g4, g0, _⟩ := (C02.accept_iff _ fid pl).mp hw
+  rw [C02.dispatch_eq_decode]
+  match n, w, g4 with
+  | 0, _, _ => rfl
+  | n + 1, a :: t, _ =>
+    simp at g0
+    subst g0
+    have hsof : Serial.hdrFind ((85#8 :: t).take (n + 1)) = some 0 := by
+      simp [Serial.hdrFind, Gen.Frame.sof, List.findIdx_cons]
+    rw [hsof]
+    show (match Serial.frameDecode (((85#8 :: t).take (n + 1)).drop 0) with
+      | .ok fr => Dispatch.cbHandle fr.fid fr.data
+      | .error _ => Dispatch.Disp.ignored) = _
+    rw [List.drop_zero]
+    cases hd : Serial.frameDecode ((85#8 :: t).take (n + 1)) with
+    | error _ => rfl
+    | ok fr => exact absurd hd (C02.truncated_rejected _ fid pl (n + 1) hw hexact hn fr.fid fr.data)
+
+/-- a write that starts with the start byte and DECLARES more bytes than it has (a grown length field, or a request cut
+    anywhere behind its length bytes) is ignored: the dispatcher never reads beyond the write -/
+theorem overlong_ignored (t : Bytes) (h : (0x55 :: t : Bytes).length < flen (0x55 :: t)) :
+    Dispatch.recvHandle (0x55 :: t) = .ignored := by
+  rw [C02.dispatch_eq_decode]
+  have hsof : Serial.hdrFind (0x55 :: t : Bytes) = some 0 := by
+    simp [Serial.hdrFind, Gen.Frame.sof, List.findIdx_cons]
+  rw [hsof]
+  show (match Serial.frameDecode ((0x55 :: t : Bytes).drop 0) with
+    | .ok fr => Dispatch.cbHandle fr.fid fr.data
+    | .error _ => Dispatch.Disp.ignored) = _
+  rw [List.drop_zero]
+  cases hd : Serial.frameDecode (0x55 :: t : Bytes) with
+  | error _ => rfl
+  | ok fr => exact absurd hd (C02.overlong_rejected _ h fr.fid fr.data)
+
+/-- **a truncated request in the queue changes nothing**: channel state, stream flag, response queue, both threads as
+    before, nothing to observe — every request, every cut point -/
+theorem ignores_truncated (cs : List Chan) (i : Inst) (w : Bytes) (fid : Nat) (pl : Bytes) (n : Nat) (rest : List Bytes)
+    (hw : Serial.frameDecode w = .ok ⟨fid, pl⟩) (hexact : w.length = flen w) (hn : n < w.length)
+    (halive : i.recvThr = .alive) (hq : i.qwrite = w.take n :: rest) :
+    recvStep cs i = (cs, { i with qwrite := rest }, none) :=
+  ignores_junk cs i _ rest (truncated_ignored w fid pl n hw hexact hn) halive hq
+
+/-- **a request whose length field grew** (or any write at the start byte that declares more than it carries) in the queue
+    changes nothing -/
+theorem ignores_overlong (cs : List Chan) (i : Inst) (t : Bytes) (rest : List Bytes)
+    (h : (0x55 :: t : Bytes).length < flen (0x55 :: t))
+    (halive : i.recvThr = .alive) (hq : i.qwrite = (0x55 :: t) :: rest) :
+    recvStep cs i = (cs, { i with qwrite := rest }, none) :=
+  ignores_junk cs i _ rest (overlong_ignored t h) halive hq
+
+/-- any number of truncated requests and over-long writes written through an interface WITHOUT write padding, each followed
+    by a receive step, in any order: the machine is where it was and still live -/
+theorem ignores_truncated_history (cs : List Chan) (i : Inst) (ds : List Bytes) (hpad : i.wpad = 0)
+    (hds : ∀ d ∈ ds, (∃ w fid pl n, Serial.frameDecode w = .ok ⟨fid, pl⟩ ∧ w.length = flen w ∧ n < w.length ∧ d = w.take n) ∨
+      (∃ t, d = 0x55 :: t ∧ d.length < flen d))
+    (halive : i.recvThr = .alive) (hq : i.qwrite = []) :
+    run cs i (ds.flatMap fun d => [.write d, .recvStep]) = (cs, i, (ds.flatMap fun _ => [Obs.none, Obs.none])) := by
+  apply ignores_junk_history cs i ds _ halive hq
+  intro d hd
+  rw [hpad, C17.align_noop_when_aligned 0 d (Or.inl rfl)]
+  rcases hds d hd with ⟨w, fid, pl, n, hw, he, hn, rfl⟩ | ⟨t, rfl, hl⟩
+  · exact truncated_ignored w fid pl n hw he hn
+  · exact overlong_ignored t hl
+
+/-- **only the first request of a write is served** (modelled, now proved for every pair): a write that carries a valid
+    request followed by ANY bytes — a second valid request included — is dispatched exactly like the first request alone -/
+theorem first_request_only (w₁ w₂ : Bytes) (fid : Nat) (pl : Bytes) (hw : Serial.frameDecode w₁ = .ok ⟨fid, pl⟩) :
+    Dispatch.recvHandle (w₁ ++ w₂) = Dispatch.recvHandle w₁ := by
+  rw [C02.dispatch_first_frame_only w₁ w₂ fid pl hw]
+  have := C02.dispatch_first_frame_only w₁ [] fid pl hw
+  rw [List.append_nil] at this
+  exact this.symm
+
+/-- non-vacuity (round 7): START(True) cut after 5 of its 7 bytes; the same request with its length field grown to 9 -/
+example : Serial.frameDecode [0x55, 0x07, 0x00, 0x05, 0x01, 0x88, 0x9c] = .ok ⟨5, [0x01]⟩ ∧
+    ([0x55, 0x07, 0x00, 0x05, 0x01, 0x88, 0x9c] : Bytes).length = flen [0x55, 0x07, 0x00, 0x05, 0x01, 0x88, 0x9c] ∧
+    Dispatch.recvHandle (([0x55, 0x07, 0x00, 0x05, 0x01, 0x88, 0x9c] : Bytes).take 5) = .ignored ∧
+    ([0x55, 0x09, 0x00, 0x05, 0x01, 0x88, 0x9c] : Bytes).length < flen [0x55, 0x09, 0x00, 0x05, 0x01, 0x88, 0x9c] ∧
+    Dispatch.recvHandle [0x55, 0x09, 0x00, 0x05, 0x01, 0x88, 0x9c] = .ignored := by decide +kernel
+
 end Nxs.C14
